@@ -41,7 +41,7 @@ NameInstantiate == <<"i","n","s","t","a","n","t","i","a","t","e">>
 NameMigrate == <<"m","i","g","r","a","t","e">>
 NameFoo == <<"f","o","o">>
 NameBar == <<"b","a","r">>
-TableNames == NameUniverse \cup SmallNames \cup {NameInstantiate, NameMigrate, NameFoo, NameBar, <<"x">>, <<"y">>, <<"z">>, <<"a","_","b">>, <<"a","_","_","b">>}
+TableNames == NameUniverse \cup SmallNames \cup {NameInstantiate, NameMigrate, NameFoo, NameBar, <<"x">>, <<"y">>, <<"z">>, <<"a","_","b">>, <<"a","_","_","b">>, <<"a","1">>, <<"a","_","1">>, <<"a","a","1">>}
 CaseTable == TLCEval([n \in TableNames |-> [v |-> VariantDef(n), w |-> WireDef(n), near |-> NearDef(n)]])
 VariantFast(n) == CaseTable[n].v
 WireFast(n) == CaseTable[n].w
@@ -185,6 +185,14 @@ Keywords1 ==
                                                 Km(<<"y">>, "query", << [n |-> "loop", t |-> "u32"] >>),
                                                 Km(<<"z">>, "sudo", << [n |-> "move", t |-> "u32"] >>) >>] >>]
 
+(* struct-message handlers (instantiate, migrate) whose names do not survive the snake -> UpperCamel -> snake round trip,
+   next to a handler of another kind that carries the re-derived name and the same arguments (C04) *)
+Shared3 ==
+    [id |-> "S3", family |-> "shared", overrides |-> {},
+     parts |-> << [id |-> "own", methods |-> << Sh(<<"a", "1">>, "instantiate", "ok"), Sh(<<"a", "_", "1">>, "exec", "ok"),
+                                                Sh(<<"y">>, "query", "ok"), Sh(<<"z">>, "sudo", "ok"),
+                                                Sh(<<"a", "a", "1">>, "migrate", "ok") >>] >>]
+
 (* programs that override entry points (C06, C04): one handler of every kind, some kinds served by the user's own functions *)
 OvProg(id, ov) ==
     [id |-> id, family |-> "override", overrides |-> ov,
@@ -231,7 +239,7 @@ PermTwin(p) ==
 RawSeq ==      \* all programs of this instance, as a sequence
        [gi \in 1..Len(Groups) |-> CorpusProg(gi)]
     \o [i \in 1..Len(SmallFs) |-> SmallProgOf(SmallFs[i], "m" \o ToString(i))]
-    \o <<Shared1, Shared2, Wide1, Defaults1, Keywords1, Generic1, Generic2, PermTwin(Shared1), PermTwin(CorpusProg(1))>> \o OverrideProgs \o CollideProgs
+    \o <<Shared1, Shared2, Shared3, Wide1, Defaults1, Keywords1, Generic1, Generic2, PermTwin(Shared1), PermTwin(CorpusProg(1))>> \o OverrideProgs \o CollideProgs
 
 (* the table of elaborated programs: the static semantics applied once per program *)
 ElabSeq == TLCEval([i \in 1..Len(RawSeq) |-> Elab(RawSeq[i])])
